@@ -199,11 +199,17 @@ func (x *Exec) wfStoreRule(s *State, a, b, o, n, idx *Term) {
 // handled by the general "last record replaced" rule below.
 
 // append of the values vals to (a,o,n) giving (b,o2,n+len(vals)): one new record
+// I0 for a concrete sequence: if it is empty it is well-formed and 0 is its only boundary
+func (x *Exec) wfEmptyFact(s *State, a, o, n *Term) {
+	s.assume(Implies(Eq(n, IntLit(0)), And(wfpT(a, o, n), bndEquiv(x, a, o, n, func(i *Term) *Term { return Eq(i, IntLit(0)) }))))
+}
+
 func (x *Exec) wfAppendRule(s *State, a, o, n, b, o2 *Term, vals []*Term) {
 	c := int64(len(vals))
 	if c < 4 {
 		return
 	}
+	x.wfEmptyFact(s, a, o, n)
 	v0 := vals[0]
 	cond := And(wfpT(a, o, n), isTagT(v0), Eq(tagLenT(v0), IntLit(c)), Eq(vals[c-1], v0),
 		Implies(Eq(n, IntLit(0)), Eq(v0, RealLitF(1))),
@@ -218,6 +224,8 @@ func (x *Exec) wfAppendRule(s *State, a, o, n, b, o2 *Term, vals []*Term) {
 
 // concatenation append(A, B...) : (a,o,n) ++ (c,oc,nc) = (b,o2,n+nc)
 func (x *Exec) wfConcatRule(s *State, a, o, n, c, oc, nc, b, o2 *Term) {
+	x.wfEmptyFact(s, a, o, n)
+	x.wfEmptyFact(s, c, oc, nc)
 	cond := And(wfpT(a, o, n), wfpT(c, oc, nc))
 	m := Arith("+", n, nc)
 	concl := And(wfpT(b, o2, m), bndEquiv(x, b, o2, m, func(i *Term) *Term {
